@@ -953,9 +953,26 @@ func (w *World) condImpliesLE(cond ssa.Value, pol bool, v ssa.Value, vConst bool
 	}
 	// normalise to  len(s) OP other
 	var other ssa.Value
-	if w.isLenOf(x, s) {
+	// a value that is at most len(s) — MIN(len(s), n) — serves as well: every fact used
+	// below is a lower bound on the length
+	atMostLen := func(b ssa.Value) bool {
+		if w.isLenOf(b, s) {
+			return true
+		}
+		if c, ok := stripConv(b).(*ssa.Call); ok {
+			if f := c.Common().StaticCallee(); f != nil && strings.EqualFold(f.Name(), "min") {
+				for _, a := range c.Common().Args {
+					if w.isLenOf(a, s) {
+						return true
+					}
+				}
+			}
+		}
+		return false
+	}
+	if atMostLen(x) {
 		other = y
-	} else if w.isLenOf(y, s) {
+	} else if atMostLen(y) {
 		other = x
 		if f, ok := flipOp[op]; ok {
 			op = f
